@@ -183,4 +183,238 @@ def extract_ascii(repo):
     return "".join(lines), {"nt": i1, "nq": i2}
 
 
-EXTRACTORS = {"ntescapes": ("NtEscapes.lean", extract), "ntascii": ("NtAscii.lean", extract_ascii)}
+# ---------------------------------------------------------------------------------------------
+# write_term / write_triple / the per-statement closures of serialize_triples, serialize_quads, and the
+# default methods serialize_graph / serialize_dataset  ->  Gen/NtWriter.lean
+#
+# The bodies are parsed into a tiny op language (fail closed: every statement must be one of the known
+# forms, each fallible call must be followed by `?` or be the tail expression):
+#   raw "…"          w.write_all(b"…")
+#   iri|bnode|tag|dt|var      w.write_all(<accessor>.as_bytes())   (the component, verbatim)
+#   lex              quoted_string(w, t.lexical_form().unwrap().as_bytes())
+#   triple           write_triple(w, <triple>)   /   sub s|p|o|g   write_term(w, <component>)
+# and the literal arm's decision tree  `if let Some(tag) = t.language_tag() {A} else { let dt = …;
+# if <ns>::<name> != dt {B} else {C} }`  with <ns>::<name> resolved through api/src/ns.rs.
+
+def _fn_body(text, sig_re, what):
+    m = re.search(sig_re, text)
+    if not m:
+        raise ExtractError("%s: signature not found" % what)
+    i = text.index("{", m.end() - 1) if text[m.end() - 1] != "{" else m.end() - 1
+    depth, j, in_str = 0, i, None
+    while j < len(text):
+        c = text[j]
+        if in_str:
+            if c == "\\":
+                j += 1
+            elif c == in_str:
+                in_str = None
+        elif c == '"':
+            in_str = '"'
+        elif c == "'" and text[j - 1] == "b":
+            in_str = "'"
+        elif c == "{":
+            depth += 1
+        elif c == "}":
+            depth -= 1
+            if depth == 0:
+                return " ".join(re.sub(r"//[^\n]*", "", text[i + 1:j]).split())
+        j += 1
+    raise ExtractError("%s: unbalanced braces" % what)
+
+
+_BSTR = r'b"((?:\\.|[^"\\])*)"'
+_ACC = {"t.iri().unwrap()": "iri", "t.bnode_id().unwrap()": "bnode", "t.variable().unwrap()": "var", "tag": "tag", "dt": "dt"}
+
+
+def _ops(src, what, subs=None, tail_ok=True):
+    """sequence of `…?;` statements (the last one may be a tail expression without `?;`) -> [(op, arg)]"""
+    ops, pos = [], 0
+    src = src.strip()
+    pats = [
+        (re.compile(r"w\.write_all\(" + _BSTR + r"\)"), lambda m: ("raw", _bytestr(m.group(1)))),
+        (re.compile(r"w\.write_all\((t\.iri\(\)\.unwrap\(\)|t\.bnode_id\(\)\.unwrap\(\)|t\.variable\(\)\.unwrap\(\)|tag|dt)\.as_bytes\(\)\)"),
+         lambda m: (_ACC[m.group(1)], None)),
+        (re.compile(r"quoted_string\(w, t\.lexical_form\(\)\.unwrap\(\)\.as_bytes\(\)\)"), lambda m: ("lex", None)),
+        (re.compile(r"write_triple\(w, (t\.to_triple\(\)\.unwrap\(\)|t|tr)\)"), lambda m: ("triple", None)),
+        (re.compile(r"write_term\(w, (t\.s\(\)|t\.p\(\)|t\.o\(\)|t)\)"),
+         lambda m: ("sub", {"t.s()": "s", "t.p()": "p", "t.o()": "o", "t": "g"}[m.group(1)])),
+    ]
+    while pos < len(src):
+        for rx, mk in pats:
+            m = rx.match(src, pos)
+            if m:
+                op = mk(m)
+                pos = m.end()
+                rest = src[pos:]
+                if rest.startswith("?;"):
+                    pos += 2
+                elif rest.strip() in ("", ",") and tail_ok:
+                    pos = len(src)
+                else:
+                    raise ExtractError("%s: a fallible call is not followed by `?;`: %s" % (what, src[m.start():m.end() + 10]))
+                ops.append(op)
+                while pos < len(src) and src[pos] == " ":
+                    pos += 1
+                break
+        else:
+            raise ExtractError("%s: statement not recognised at: %s" % (what, src[pos:pos + 90]))
+    return ops
+
+
+def _ns_iri(repo, mod, name):
+    text = read(repo, "api/src/ns.rs")
+    m = re.search(r"pub mod %s \{\s*namespace!\(\s*\"([^\"]*)\",(.*?)\);\s*\}" % re.escape(mod), text, re.S)
+    if not m:
+        raise ExtractError("namespace %s not found in api/src/ns.rs" % mod)
+    body = re.sub(r"//[^\n]*", "", m.group(2))
+    plain = body.split(";")[0]
+    names = [x.strip() for x in plain.split(",") if x.strip()]
+    if name not in names:
+        raise ExtractError("%s::%s is not a plain suffix of the namespace" % (mod, name))
+    return m.group(1), name
+
+
+def _lean_str(bs):
+    return "[%s]" % ", ".join(_lean_char(b) for b in bs)
+
+
+def _lean_ops(ops):
+    out = []
+    for op, arg in ops:
+        if op == "raw":
+            out.append(".raw %s" % _lean_str(arg))
+        elif op == "sub":
+            out.append(".sub .%s" % arg)
+        else:
+            out.append("." + op)
+    return "[%s]" % ", ".join(out)
+
+
+def extract_writer(repo):
+    nt = read(repo, REL)
+    nq = read(repo, "turtle/src/serializer/nq.rs")
+    api = read(repo, "api/src/serializer.rs")
+    # ---- write_term
+    body = _fn_body(nt, r"pub fn write_term<W, T>\(w: &mut W, t: T\) -> io::Result<\(\)> where W: io::Write, T: Term, \{"
+                    .replace(" ", r"\s+"), "write_term")
+    m = re.match(r"^use TermKind::\{BlankNode, Iri, Literal, Triple, Variable\}; match t\.kind\(\) \{ (.*) \} Ok\(\(\)\)$", body)
+    if not m:
+        raise ExtractError("write_term: not `match t.kind() { … } Ok(())`: %s" % body[:200])
+    arms_src = m.group(1)
+    arms, pos = {}, 0
+    while pos < len(arms_src):
+        a = re.match(r"(Iri|BlankNode|Literal|Triple|Variable) => \{ ", arms_src[pos:])
+        if not a:
+            raise ExtractError("write_term: arm not recognised at: %s" % arms_src[pos:pos + 80])
+        start = pos + a.end()
+        depth, j = 1, start
+        while depth:
+            if j >= len(arms_src):
+                raise ExtractError("write_term: unbalanced arm")
+            c = arms_src[j]
+            if c == '"':                      # skip byte-string literals (they contain no braces today, be safe)
+                j += 1
+                while arms_src[j] != '"':
+                    j += 2 if arms_src[j] == "\\" else 1
+            depth += (c == "{") - (c == "}")
+            j += 1
+        if a.group(1) in arms:
+            raise ExtractError("write_term: duplicate arm " + a.group(1))
+        arms[a.group(1)] = arms_src[start:j - 1].strip()
+        pos = j
+        while pos < len(arms_src) and arms_src[pos] in " ,":
+            pos += 1
+    if sorted(arms) != ["BlankNode", "Iri", "Literal", "Triple", "Variable"]:
+        raise ExtractError("write_term: arms are %s" % sorted(arms))
+    simple = {k: _ops(arms[k], "write_term/" + k, tail_ok=False) for k in ("Iri", "BlankNode", "Triple", "Variable")}
+    lit = re.match(r"^(?P<pre>.*?) if let Some\(tag\) = t\.language_tag\(\) \{ (?P<lang>.*?) \} else \{ "
+                   r"let dt = t\.datatype\(\)\.unwrap\(\); if (?P<ns>\w+)::(?P<name>\w+) != dt \{ (?P<typed>.*?) \} else \{ (?P<plain>.*?) \} \}$",
+                   arms["Literal"])
+    if not lit:
+        raise ExtractError("write_term/Literal: decision tree not recognised: %s" % arms["Literal"][:300])
+    lit_ops = {k: _ops(lit.group(k), "write_term/Literal/" + k, tail_ok=False) for k in ("pre", "lang", "typed", "plain")}
+    el_ns, el_name = _ns_iri(repo, lit.group("ns"), lit.group("name"))
+    # ---- write_triple
+    tb = _fn_body(nt, r"pub fn write_triple<W, T>\(w: &mut W, t: T\) -> io::Result<\(\)> where W: io::Write, T: Triple, \{"
+                  .replace(" ", r"\s+"), "write_triple")
+    mt = re.match(r"^(.*) Ok\(\(\)\)$", tb)
+    if not mt:
+        raise ExtractError("write_triple: does not end with Ok(())")
+    triple_ops = _ops(mt.group(1), "write_triple", tail_ok=False)
+    # ---- serialize_triples / serialize_quads closures
+    sb = _fn_body(nt, r"fn serialize_triples<TS>\( &mut self, mut source: TS, \) -> StreamResult<&mut Self, TS::Error, Self::Error> where TS: TripleSource, \{"
+                  .replace(" ", r"\s*"), "serialize_triples")
+    ms = re.match(r"^if self\.config\.ascii \{ todo!\([^)]*\) \} source \.try_for_each_triple\(\|t\| \{ \{ let w = &mut self\.write; (.*) \} "
+                  r"\.map_err\(\|e\| io::Error::new\(io::ErrorKind::Other, e\)\) \}\) \.map\(\|\(\)\| self\)$", sb)
+    if not ms:
+        raise ExtractError("serialize_triples: closure not recognised: %s" % sb[:300])
+    nt_stmt = _ops(ms.group(1), "serialize_triples")
+    qb = _fn_body(nq, r"fn serialize_quads<QS>\( &mut self, mut source: QS, \) -> StreamResult<&mut Self, QS::Error, Self::Error> where QS: QuadSource, \{"
+                  .replace(" ", r"\s*"), "serialize_quads")
+    mq = re.match(r"^if self\.config\.ascii \{ todo!\([^)]*\) \} source \.try_for_each_quad\(\|q\| \{ \{ let w = &mut self\.write; "
+                  r"let \(tr, gn\) = q\.spog\(\); (?P<pre>.*?) match gn \{ None => (?P<none>.*?), Some\(t\) => \{ (?P<some>.*?) \} \} \} "
+                  r"\.map_err\(\|e\| io::Error::new\(io::ErrorKind::Other, e\)\) \}\) \.map\(\|\(\)\| self\)$", qb)
+    if not mq:
+        raise ExtractError("serialize_quads: closure not recognised: %s" % qb[:300])
+    nq_pre = _ops(mq.group("pre"), "serialize_quads/pre", tail_ok=False)
+    nq_none = _ops(mq.group("none"), "serialize_quads/None")
+    nq_some = _ops(mq.group("some"), "serialize_quads/Some")
+    # ---- default methods of the serializer traits
+    g_ok = " ".join(_fn_body(api, r"fn serialize_graph<G>\(&mut self, graph: &G\) -> StreamResult<&mut Self, G::Error, Self::Error>\s+where\s+G: Graph,\s+Self: Sized,\s+\{",
+                             "serialize_graph").split()) == "self.serialize_triples(&mut graph.triples())"
+    d_ok = " ".join(_fn_body(api, r"fn serialize_dataset<D>\(\s*&mut self,\s*dataset: &D,\s*\) -> StreamResult<&mut Self, D::Error, Self::Error>\s+where\s+D: Dataset,\s+Self: Sized,\s+\{",
+                             "serialize_dataset").split()) == "self.serialize_quads(&mut dataset.quads())"
+    if not (g_ok and d_ok):
+        raise ExtractError("serialize_graph / serialize_dataset are no longer `self.serialize_triples(&mut graph.triples())` / "
+                           "`self.serialize_quads(&mut dataset.quads())`")
+    L = [HEADER,
+         "-- source: turtle/src/serializer/nt.rs (write_term, write_triple, serialize_triples), nq.rs (serialize_quads),\n",
+         "--         api/src/serializer.rs (serialize_graph, serialize_dataset), api/src/ns.rs (the elided datatype)\n",
+         "namespace SophiaModel.Gen\n\n",
+         "/-- component of a statement handed to `write_term` -/\n",
+         "inductive NtSub | s | p | o | g\n  deriving DecidableEq, Repr\n\n",
+         "/-- one fallible write (each is followed by `?` in the source: an io error ends the serialisation) -/\n",
+         "inductive NtOp\n"
+         "  | raw (bytes : List Char)   -- w.write_all(b\"…\")\n"
+         "  | iri | bnode | tag | dt | var   -- w.write_all(<that component>.as_bytes())\n"
+         "  | lex                        -- quoted_string(w, lexical_form.as_bytes())\n"
+         "  | triple                     -- write_triple(w, …)\n"
+         "  | sub (c : NtSub)            -- write_term(w, <component>)\n"
+         "  deriving DecidableEq, Repr\n\n",
+         "/-- `write_term`, arms of `match t.kind()` -/\n",
+         "def ntArmIri : List NtOp := %s\n" % _lean_ops(simple["Iri"]),
+         "def ntArmBnode : List NtOp := %s\n" % _lean_ops(simple["BlankNode"]),
+         "def ntArmTriple : List NtOp := %s\n" % _lean_ops(simple["Triple"]),
+         "def ntArmVar : List NtOp := %s\n\n" % _lean_ops(simple["Variable"]),
+         "/-- the `Literal` arm: common prefix; `if let Some(tag) = t.language_tag()`; else `if E != dt` / else -/\n",
+         "def ntLitPre : List NtOp := %s\n" % _lean_ops(lit_ops["pre"]),
+         "def ntLitLang : List NtOp := %s\n" % _lean_ops(lit_ops["lang"]),
+         "def ntLitTyped : List NtOp := %s\n" % _lean_ops(lit_ops["typed"]),
+         "def ntLitPlain : List NtOp := %s\n" % _lean_ops(lit_ops["plain"]),
+         "/-- E = `%s::%s`: namespace and suffix of the `NsTerm` the datatype is compared with -/\n" % (lit.group("ns"), lit.group("name")),
+         "def ntElideNs : List Char := %s.toList\n" % json_str(el_ns),
+         "def ntElideSuffix : List Char := %s.toList\n\n" % json_str(el_name),
+         "/-- `write_triple` -/\n",
+         "def ntTriple : List NtOp := %s\n\n" % _lean_ops(triple_ops),
+         "/-- per-triple closure of `NtSerializer::serialize_triples` -/\n",
+         "def ntStatement : List NtOp := %s\n\n" % _lean_ops(nt_stmt),
+         "/-- per-quad closure of `NqSerializer::serialize_quads`: before `match gn`, `None =>`, `Some(t) =>` -/\n",
+         "def nqPre : List NtOp := %s\n" % _lean_ops(nq_pre),
+         "def nqNone : List NtOp := %s\n" % _lean_ops(nq_none),
+         "def nqSome : List NtOp := %s\n\n" % _lean_ops(nq_some),
+         "/-- `serialize_graph(g)` = `serialize_triples(&mut g.triples())`, `serialize_dataset(d)` = `serialize_quads(&mut d.quads())` -/\n",
+         "def serializeContainerIsSource : Bool := true\n\n",
+         "end SophiaModel.Gen\n"]
+    info = {"elided_datatype": el_ns + el_name, "ops": {"Iri": len(simple["Iri"]), "Literal": sum(len(v) for v in lit_ops.values()),
+                                                        "triple": len(triple_ops), "nq": len(nq_pre) + len(nq_none) + len(nq_some)}}
+    return "".join(L), info
+
+
+def json_str(s):
+    import json as _j
+    return _j.dumps(s, ensure_ascii=False)
+
+
+EXTRACTORS = {"ntescapes": ("NtEscapes.lean", extract), "ntascii": ("NtAscii.lean", extract_ascii),
+              "ntwriter": ("NtWriter.lean", extract_writer)}
